@@ -491,3 +491,86 @@ def fold_proof_failures(ctx):
         ctx.notes.append('proof obligations no longer checking (failing input found by the oracle): %s'
                          % [str(p['what'])[:200] for p in proofs])
         ctx.violations[:] = [v for v in ctx.violations if v not in proofs]
+
+
+# ---------------------------------------------------------------- glue theorems (appended)
+
+def _print_axioms(source, names, timeout=900):
+    """Elaborate `source` followed by one `#print axioms` per name (lean --stdin).
+    -> (found: {name: [axioms]}, output)"""
+    text = source.rstrip('\n') + '\n' + ''.join('#print axioms %s\n' % n for n in names)
+    lock = open(os.path.join(LEAN, '.build.lock'), 'w')
+    fcntl.flock(lock, fcntl.LOCK_SH)
+    try:
+        p = subprocess.run(['lake', 'env', 'lean', '--stdin'], cwd=LEAN, input=text, stdout=subprocess.PIPE,
+                           stderr=subprocess.STDOUT, text=True, timeout=timeout)
+    finally:
+        lock.close()
+    found = {}
+    for m in re.finditer(r"'([^']+)' depends on axioms: \[([^\]]*)\]", p.stdout, re.S):
+        found[m.group(1)] = [a.strip() for a in m.group(2).replace('\n', ' ').split(',') if a.strip()]
+    for m in re.finditer(r"'([^']+)' does not depend on any axioms", p.stdout):
+        found[m.group(1)] = []
+    return found, p.stdout
+
+
+def audit_extra(ctx, module, names):
+    """Further proof obligations of the property that live in Sio/Props/<module>.lean (the glue between
+    the models, and between the models' constants and the source): regenerate Sio/Generated from the
+    source, build Sio.Props.<module>, `#print axioms` of the listed theorems (short names, in namespace
+    Sio.<module>), forbidden-token scan of the module's import closure.  Adds to
+    ctx.coverage['obligations' / 'discharged' / 'theorems'] and reports like `proof_step`.
+
+    When the module no longer builds (a regenerated constant changed), the module's text is elaborated
+    directly: Lean keeps going after a failed proof and marks what depends on it with `sorryAx`, so only
+    the listed theorems that are really affected are reported — a property is not blamed for a glue
+    theorem of another property."""
+    from . import regen
+    problems = []
+    try:
+        regen.run(REPO)
+    except regen.TranslatorError as e:
+        problems.append('translator cannot regenerate Sio/Generated from %s (a stale file would be '
+                        'checked instead): %s' % (REPO, e))
+    full = ['Sio.%s.%s' % (module, n) for n in names]
+    audit_file = os.path.join(LEAN, 'Sio', 'Audit', module + '.lean')
+    listed = re.findall(r'#print axioms\s+(\S+)', open(audit_file).read()) if os.path.exists(audit_file) else []
+    for n in full:
+        if n not in listed:
+            problems.append('theorem %s is not listed in Sio/Audit/%s.lean' % (n, module))
+    ok, out = build(['Sio.Props.' + module])
+    if ok:
+        found, text = _print_axioms('import Sio.Props.%s' % module, full)
+    else:
+        src = open(os.path.join(LEAN, 'Sio', 'Props', module + '.lean')).read()
+        found, text = _print_axioms(src, full)
+        ctx.notes.append('lake build Sio.Props.%s failed; its theorems were judged one by one' % module)
+    theorems, discharged = [], 0
+    for n in full:
+        if n not in found:
+            problems.append('theorem %s does not check (not reported by #print axioms):\n%s'
+                            % (n, (text if ok else out + '\n' + text)[-2500:]))
+            continue
+        theorems.append({'name': n, 'axioms': found[n]})
+        bad = [a for a in found[n] if a not in ALLOWED_AXIOMS]
+        if bad:
+            why = ''
+            if 'sorryAx' in bad:
+                errs = [ln for ln in text.splitlines() if 'error' in ln][:6]
+                why = ' — a proof it depends on no longer checks: ' + ' | '.join(errs)
+            problems.append('theorem %s depends on %s%s' % (n, bad, why))
+        else:
+            discharged += 1
+    for h in grep_forbidden(module):
+        problems.append('forbidden token: ' + h)
+    ctx.coverage['obligations'] = ctx.coverage.get('obligations', 0) + len(full)
+    ctx.coverage['discharged'] = ctx.coverage.get('discharged', 0) + discharged
+    ctx.coverage['theorems'] = list(ctx.coverage.get('theorems', [])) + theorems
+    ctx.coverage['checker_cmd_' + module.lower()] = (
+        'bin/regen && cd lean && lake build Sio.Props.%s && lake env lean Sio/Audit/%s.lean' % (module, module))
+    ctx.coverage['trusted_base'] = list(ctx.coverage.get('trusted_base', [])) + [
+        'translator harness/translate_constants.py (ast -> Sio/Generated/Constants.lean; socketio source and the '
+        'installed engineio package are read, not executed)']
+    for pr in problems:
+        ctx.violation('proof', pr, {'theorem_or_build': pr}, no_input=True)
+    return {'obligations': len(full), 'discharged': discharged, 'theorems': theorems, 'problems': problems}
